@@ -72,6 +72,7 @@ static int do_timeline(int argc, char **argv)
 	xmp_set_player(c, XMP_PLAYER_AMP, amp);
 	xmp_set_player(c, XMP_PLAYER_MIX, mix);
 	xmp_set_player(c, XMP_PLAYER_VOLUME, vol);
+	if (argc >= 12 && xmp_set_tempo_factor(c, atof(argv[11])) != 0) { puts("TEMPO-FACTOR-REFUSED"); return 0; }
 	for (i = 0; i < nframes; i++) {
 		if (xmp_play_frame(c) < 0) { puts("END"); break; }
 		xmp_get_frame_info(c, &fi);
